@@ -332,7 +332,9 @@ class C05(Family):
         from core import py2lean, leanproj
         repo = os.environ.get("VERIF_REPO") or "/repo"
         problems, self.gen_info = py2lean.regenerate(repo, leanproj.LEAN)
-        return problems
+        p2, i2 = py2lean.regenerate_dtkw(repo, leanproj.LEAN)
+        self.gen_info.update(i2)
+        return problems + p2
     exhaustive = True
     exhaustive_quick = False
     externals = []
